@@ -257,11 +257,11 @@ Section DEProofs.
 
   (* C01 + C04 for both DE solvers, for every clean sequence of API operations *)
   Theorem de_run_ok : forall ops sc,
-    Forall (clean_op N _ de_ok_in) ops -> P_de (fst sc) (snd sc) ->
+    Forall (clean_op N _ de_ok_in false) ops -> P_de (fst sc) (snd sc) ->
     P_de (fst (run N inf _ _ A sc ops)) (snd (run N inf _ _ A sc ops)).
   Proof.
-    apply (run_joint N inf _ _ A P_de de_ok_in).
-    - intros s s' c. apply P_de_frame.
+    apply (run_joint N inf _ _ A P_de de_ok_in false).
+    - intros s s' c H1 H2 _. apply P_de_frame; assumption.
     - intros s c i [Hd _] H. cbn [a_decorate de_algo]. unfold de_decorate. rewrite Hd. exact H.
     - intros s c i. apply P_de_step.
     - intros s c H. cbn [a_finalize de_algo fst snd]. eapply P_de_frame; [| |exact H]; cbn; auto using app_nil_r.
@@ -313,6 +313,42 @@ Section DECons.
     apply de_loop_cons. exact H.
   Qed.
 End DECons.
+
+(* C03, result clause, for differential evolution: the reported best (and every member) was evaluated at a point that is an
+   output of the constraints in force at that evaluation - or has never been evaluated at all (top energy) *)
+Section DEResult.
+  Variable N : Num.
+  Variable inf : T N.
+  Variable de2 : bool.
+  Variable npop : nat.
+  Hypothesis Hord : StrictWeak (T N) (ltb N).
+  Hypothesis Htop : forall p, is_top N (add N inf p).
+  Hypothesis Hinf : is_top N inf.
+
+  Definition constrained_call (s : sys N) (p : vec N * T N) : Prop :=
+    is_top N (snd p) \/
+    exists c, In c (calls N s) /\ c_x N c = fst p /\ c_e N c = snd p /\ exists x, fst p = c_cons N c x.
+
+  Lemma honest_constrained s p : Inv_cons N s -> honest N s p -> constrained_call s p.
+  Proof.
+    intros Hc [Hin|Ht]; [|left; exact Ht]. right.
+    unfold epairs in Hin. apply in_map_iff in Hin as (c & Ec & Hin).
+    exists c. destruct p as [x e]. injection Ec as Ex Ee. cbn [fst snd]. repeat split; auto.
+    unfold Inv_cons in Hc. rewrite Forall_forall in Hc. destruct (Hc c Hin) as [x0 Hx0]. exists x0. now rewrite <- Ex.
+  Qed.
+
+  Theorem de_result_constrained : forall ops sc,
+    Forall (clean_op N _ (de_ok_in N npop) false) ops -> P_de N inf npop (fst sc) (snd sc) -> Inv_cons N (fst sc) ->
+    let r := run N inf _ _ (de_algo N inf de2) sc ops in
+    constrained_call (fst r) (de_best N inf (snd r)) /\ Forall (constrained_call (fst r)) (members N (snd r)).
+  Proof.
+    intros ops sc Hclean HP Hc. cbv zeta.
+    pose proof (de_run_ok N inf Hord Htop Hinf npop de2 ops sc Hclean HP) as ((Hm & Hb & _) & _).
+    pose proof (de_evaluated_points_constrained N inf de2 ops sc Hc) as Hc'.
+    split; [apply honest_constrained; assumption|].
+    eapply Forall_impl; [|exact Hm]. intros p. apply honest_constrained. exact Hc'.
+  Qed.
+End DEResult.
 
 (* C05 for differential evolution: Solve always returns (every generation logs exactly one record) *)
 Section DESolve.
